@@ -40,13 +40,13 @@ def requirements(tier):
     r = {f"ladder_judged:{n}": 20 for n in NAMES}
     r.update({"homogeneity_rungs_checked": 5000, "finite_rungs_checked": 8000, "rejections_checked": 200, "history_independence_checked": 300,
               "equal_seed_checked": 100, "contract_evaluations_aggregator": 10000, "w_m_equals_1": 30, "w_n_equals_1": 30, "w_m_gt_n": 100,
-              "w_zero_or_duplicate_rows": 100, "w_fine_rung_above_norm_eps_with_conflict": 50, "w_float32": 300, "w_seed_changes_result": 10, "w_history_call_in_other_dtype": 200})
+              "w_zero_or_duplicate_rows": 100, "w_fine_rung_above_norm_eps_with_conflict": 50, "w_float32": 300, "w_seed_changes_result": 10, "w_history_call_in_other_dtype": 200, "w_column_major_input": 100, "w_very_wide": 30})
     if tier == "thorough":
         r["repo_tests_contract_evaluations"] = 1000
     return r
 
 
-SHAPE_CLASSES = ["m1", "n1", "tall", "zero_rows", "duplicated", "generic", "conflict"]
+SHAPE_CLASSES = ["m1", "n1", "tall", "zero_rows", "duplicated", "generic", "conflict", "generic", "conflict", "very_wide"]
 
 
 def gen_ladder(rng, i):
@@ -63,6 +63,11 @@ def gen_ladder(rng, i):
         J, _ = M.gen(rng, klass="zero_rows", max_m=6, max_n=8)
     elif sc == "duplicated":
         J, _ = M.gen(rng, klass="duplicated", max_m=6, max_n=8)
+    elif sc == "very_wide":
+        m = int(rng.integers(2, 5))
+        J = rng.standard_normal((m, [5000, 50000][int(rng.integers(2))])) * (10.0 ** rng.uniform(-0.5, 0.5, size=(m, 1)))
+        if rng.random() < 0.5:
+            J[1] = -0.7 * J[0] + 0.3 * J[1]  # a conflict
     elif sc == "conflict":
         J, _ = M.gen(rng, klass="antiparallel", m=int(rng.integers(2, 6)), max_n=8)
     else:
@@ -82,7 +87,10 @@ def check_ladder(case, ctx):
     name = desc["name"]
     J0 = np.array(case["J"], dtype=np.float64).reshape(len(case["J"]), -1)
     m, n = J0.shape
-    Jt = to_t(J0, dname)
+    col_major = bool(case["seed"] % 5 == 0)  # every 5th case: matrices handed over in a column-major (non-contiguous) layout
+    Jt = to_t(J0, dname, column_major=col_major)
+    if col_major:
+        ctx.count("w_column_major_input")
     J = as64(Jt)
     base, err, rec0 = E.run(desc, Jt, seed=case["seed"])
     if err is not None:
@@ -108,7 +116,7 @@ def check_ladder(case, ctx):
     rungs = [10.0 ** k for k in LADDER[dname]] + FINE
     vio = None
     for t in rungs:
-        Xt = to_t(J0 * t, dname)
+        Xt = to_t(J0 * t, dname, column_major=col_major)
         X = as64(Xt)
         if not np.isfinite(X).all():
             continue
@@ -157,7 +165,9 @@ def check_ladder(case, ctx):
         ctx.count("w_float32")
     nz = {tuple(r) for r in J.tolist() if any(r)}
     ctx.evaluated(fingerprint(case), nontrivial=len(nz) >= 2)
-    ctx.sample({"J": np.round(J, 4).tolist(), "agg": desc, "dtype": dname, "shape_class": sc, "rungs": len(rungs)})
+    if n >= 1000:
+        ctx.count("w_very_wide")
+    ctx.sample({"J": np.round(J[:, :8], 4).tolist(), "columns": n, "agg": desc, "dtype": dname, "shape_class": sc, "rungs": len(rungs)})
 
 
 # ------------------------------------------------------------------------------------------------ rejection
